@@ -24,12 +24,13 @@ LEVEL = "model_checking"
 
 def run(ck):
     thorough = ck.tier == "thorough"
+    binp = ck.gobuild("sharda")
+    world = su.detect_world(ck, binp)
     if not os.environ.get("VERIF_SKIP_MODEL"):   # (dev aid for mutation runs: the model check does not depend on the tree)
-        ck.tlc_model("Shard", "Shard_C14t.cfg" if thorough else "Shard_C14.cfg", timeout=3000)
+        ck.tlc_model("Shard", "Shard_C14t.cfg" if thorough else "Shard_C14.cfg", timeout=3000, files=su.cfg_files(world, "Shard_C14t.cfg" if thorough else "Shard_C14.cfg"))
         ck.setcov("exhaustive", True)
         ck.setcov("constants", "Objs={1,3 TS->1} wc in {off,on} modes RW/RO/DEGRO epochs 0..%d; Put GC Flush Epoch MarkDef InhumeCnr SetMode%s"
                   % ((3, " Delete MarkRed") if thorough else (1, "")))
-    binp = ck.gobuild("sharda")
     tp = os.path.join(ck.tmp, "ro.trace.ndjson")
     n, ln = (1200, 16) if thorough else (48, 12)
     env = {}
@@ -39,7 +40,7 @@ def run(ck):
         n, ln = rp.get("n", n), rp.get("len", ln)
     p = ck.harness(binp, ["ro", n, ln, tp], timeout=2400, env_extra=env)
     ck.log("harness: %s" % p.stdout.strip().splitlines()[-1])
-    v = su.validate(ck, "TraceShard_C14.cfg", tp, timeout=2400)
+    v = su.validate(ck, "TraceShard_C14.cfg", tp, timeout=2400, world=world)
     ev = v.events
     if not v.r.ok:
         pos, mm = v.stuck if v.stuck else (vkit.stuck_position(v.r) or 1, [])
